@@ -39,11 +39,22 @@ func init() {
 		"reflect.TypeOf":              extReflectTypeOf,
 		"strings.ToLower":             extToLower,
 		"strings.Repeat":              extRepeat,
+		"strings.Index":               extStringsIndex,
+		"strings.LastIndex":           extStringsLastIndex,
+		"strings.Contains":            extStringsContains,
+		"strings.IndexByte":           extStringsIndexByte,
+		"strings.HasPrefix":           extStringsHasPrefix,
+		"strings.HasSuffix":           extStringsHasSuffix,
+		"strings.EqualFold":           extStringsEqualFold,
+		"strings.TrimSpace":           concreteStrFn("TrimSpace", strings.TrimSpace),
+		"strings.ToUpper":             concreteStrFn("ToUpper", strings.ToUpper),
+		"strings.Title":               concreteStrFn("Title", strings.Title),
 		"strconv.Itoa":                extItoa,
 		"strconv.FormatUint":          extFormatUint,
 		"sync/atomic.AddUint64":       extAtomicAdd64,
 		"sync/atomic.LoadUint64":      extAtomicLoad64,
-		"time.Sleep":                  extNop,
+		"time.Sleep":                  extTimeSleep,
+		"time.After":                  extTimeAfter,
 		"time.Now":                    extTimeNow,
 		"time.Since":                  extTimeSince,
 		"runtime.NumCPU":              func(m *Machine, c *frame, a []Value) Value { return m.ts.BV(4, 64) },
@@ -678,3 +689,182 @@ func extOnceDo(m *Machine, caller *frame, args []Value) Value {
 }
 
 type onceDone bool
+
+// ---- package strings: searching and testing (concrete strings run natively; a symbolic needle of
+// known length against a concrete haystack becomes an ite chain over the positions) ----
+
+// knownLen: the byte length of a rope whose atoms are constant chunks and single-byte rune terms.
+func knownLen(s Str) (int, bool) {
+	n := 0
+	for _, p := range s.parts {
+		switch {
+		case p.t != nil:
+			return 0, false
+		case p.r != nil:
+			n++
+		default:
+			n += len(p.s)
+		}
+	}
+	return n, true
+}
+
+func (m *Machine) strIndexTerm(h string, needle Str, last bool) Value {
+	ts := m.ts
+	l, ok := knownLen(needle)
+	if !ok {
+		m.unsupported("strings.Index with a needle of unknown length")
+	}
+	res := ts.BV(^uint64(0), 64) // -1
+	// build from the last position backwards so that the first match wins (reverse for LastIndex)
+	if !last {
+		for i := len(h) - l; i >= 0; i-- {
+			res = ts.Ite(m.strEq(mkStr(h[i:i+l]), needle), ts.BV(uint64(i), 64), res)
+		}
+	} else {
+		for i := 0; i+l <= len(h); i++ {
+			res = ts.Ite(m.strEq(mkStr(h[i:i+l]), needle), ts.BV(uint64(i), 64), res)
+		}
+	}
+	return res
+}
+
+func extStringsIndex(m *Machine, caller *frame, args []Value) Value {
+	h, hok := args[0].(Str).Concrete()
+	n, nok := args[1].(Str).Concrete()
+	if hok && nok {
+		return m.ts.BV(uint64(int64(strings.Index(h, n))), 64)
+	}
+	if hok {
+		return m.strIndexTerm(h, args[1].(Str), false)
+	}
+	m.unsupported("strings.Index in a symbolic string")
+	return nil
+}
+
+func extStringsLastIndex(m *Machine, caller *frame, args []Value) Value {
+	h, hok := args[0].(Str).Concrete()
+	n, nok := args[1].(Str).Concrete()
+	if hok && nok {
+		return m.ts.BV(uint64(int64(strings.LastIndex(h, n))), 64)
+	}
+	if hok {
+		return m.strIndexTerm(h, args[1].(Str), true)
+	}
+	m.unsupported("strings.LastIndex in a symbolic string")
+	return nil
+}
+
+func extStringsContains(m *Machine, caller *frame, args []Value) Value {
+	i := extStringsIndex(m, caller, args).(*Term)
+	return m.ts.Not(m.ts.Eq(i, m.ts.BV(^uint64(0), 64)))
+}
+
+func extStringsIndexByte(m *Machine, caller *frame, args []Value) Value {
+	h, hok := args[0].(Str).Concrete()
+	c := args[1].(*Term)
+	if hok && c.IsConst() {
+		return m.ts.BV(uint64(int64(strings.IndexByte(h, byte(c.I)))), 64)
+	}
+	if hok {
+		ts := m.ts
+		res := ts.BV(^uint64(0), 64)
+		for i := len(h) - 1; i >= 0; i-- {
+			res = ts.Ite(ts.Eq(c, ts.BV(uint64(h[i]), 8)), ts.BV(uint64(i), 64), res)
+		}
+		return res
+	}
+	m.unsupported("strings.IndexByte in a symbolic string")
+	return nil
+}
+
+func extStringsHasPrefix(m *Machine, caller *frame, args []Value) Value {
+	s, sok := args[0].(Str).Concrete()
+	p, pok := args[1].(Str).Concrete()
+	if sok && pok {
+		return m.ts.Bool(strings.HasPrefix(s, p))
+	}
+	if sok {
+		if l, ok := knownLen(args[1].(Str)); ok {
+			if l > len(s) {
+				return m.ts.False
+			}
+			return m.strEq(mkStr(s[:l]), args[1].(Str))
+		}
+	}
+	m.unsupported("strings.HasPrefix on symbolic strings")
+	return nil
+}
+
+func extStringsHasSuffix(m *Machine, caller *frame, args []Value) Value {
+	s, sok := args[0].(Str).Concrete()
+	p, pok := args[1].(Str).Concrete()
+	if sok && pok {
+		return m.ts.Bool(strings.HasSuffix(s, p))
+	}
+	if sok {
+		if l, ok := knownLen(args[1].(Str)); ok {
+			if l > len(s) {
+				return m.ts.False
+			}
+			return m.strEq(mkStr(s[len(s)-l:]), args[1].(Str))
+		}
+	}
+	m.unsupported("strings.HasSuffix on symbolic strings")
+	return nil
+}
+
+func concreteStrFn(name string, f func(string) string) externalFn {
+	return func(m *Machine, caller *frame, args []Value) Value {
+		s, ok := args[0].(Str).Concrete()
+		if !ok {
+			m.unsupported("strings." + name + " of a symbolic string")
+		}
+		return mkStr(f(s))
+	}
+}
+
+func extStringsEqualFold(m *Machine, caller *frame, args []Value) Value {
+	a, aok := args[0].(Str).Concrete()
+	b, bok := args[1].(Str).Concrete()
+	if aok && bok {
+		return m.ts.Bool(strings.EqualFold(a, b))
+	}
+	m.unsupported("strings.EqualFold on symbolic strings")
+	return nil
+}
+
+// ---- virtual time (run-to-completion model only): a sleeping goroutine wakes, and a time.After
+// channel delivers, when every goroutine is blocked and virtual time is advanced to the deadline.
+// Computation itself takes no virtual time. Under schedule exploration time is not modelled
+// (Sleep is a no-op, time.After is unsupported).
+
+func extTimeSleep(m *Machine, caller *frame, args []Value) Value {
+	d, ok := args[0].(*Term)
+	if !ok || !d.IsConst() {
+		return nil
+	}
+	ns := sext64(d.I, d.W)
+	if ns <= 0 || m.schedOn() || m.noForkDepth > 0 {
+		return nil
+	}
+	wake := m.path.now + ns
+	m.path.deadlines = append(m.path.deadlines, wake)
+	m.block(func() bool { return m.path.now >= wake }, "sleep")
+	return nil
+}
+
+func extTimeAfter(m *Machine, caller *frame, args []Value) Value {
+	d, ok := args[0].(*Term)
+	if !ok || !d.IsConst() || m.schedOn() {
+		m.unsupported("time.After (symbolic duration, or under schedule exploration)")
+	}
+	ns := sext64(d.I, d.W)
+	if ns < 1 {
+		ns = 1
+	}
+	m.chanSeq++
+	ch := &Chan{Cap: 1, ID: m.chanSeq, readyAt: m.path.now + ns}
+	m.path.deadlines = append(m.path.deadlines, ch.readyAt)
+	return ch
+}
